@@ -106,7 +106,7 @@ class Execution:
         return self.results, list(self.steps), list(self.trace)
 
 
-def explore(make_bodies, sequential, bound=1, atomic=(), max_executions=None):
+def explore(make_bodies, sequential, bound=1, atomic=(), max_executions=None, part=0, nparts=1):
     """Enumerate every schedule with at most `bound` preemptions.
 
     make_bodies() -> list of callables on FRESH shared objects (called once per execution);
@@ -149,6 +149,8 @@ def explore(make_bodies, sequential, bound=1, atomic=(), max_executions=None):
                 # global steps beyond the end of the run cannot be reached
                 hi = total0 if sw else first_len
                 for g in range(lo, hi + 1):
+                    if not sw and (g - 1) % nparts != part:
+                        continue  # the space is partitioned over workers by the first preemption point
                     if max_executions and stats["executions"] >= max_executions:
                         stats["cap_hit"] = True
                         break
